@@ -726,7 +726,9 @@ end sampling
 
 example : (fun x : ℚ => x) 3 = 3 ∧ (0 : ℚ) < 3 ∧ (1 : ℚ) < 3 - 0 - 0 := by norm_num
 
-/-- **Counterexample (real defect)**: `_last_t` is an INTEGER array, `self._last_t[0] = dae_t` truncates.
+/-- **Counterexample (defect of the pinned tree, repaired by /repo commit 653d708 "fix: Sampling keeps the
+time of the last sample as a float"; the driver now instantiates `trunc := id`)**: `_last_t` was an
+INTEGER array, `self._last_t[0] = dae_t` truncated.
 Interval 1, sample taken at `t = 3/2` (stored as `1`): the next iteration at the same `t = 3/2` is treated
 as an advancing call that is not a sampling instant, so the output stays at the first iterate's value `5`
 instead of following the input `7`. -/
